@@ -251,7 +251,7 @@ def shard_main(argv):
                         case = alt
                 except Exception:
                     pass
-            if hasattr(mod, "shrink"):
+            if callable(getattr(mod, "shrink", None)):
                 # the check knows which reductions keep the case inside its generator's guarantees
                 case = mod.shrink(case, still_fails)
             else:
